@@ -167,7 +167,342 @@ theorem handleUnstake_moves {L L' : Ledger} {a : Addr} (h : handleUnstake L a = 
   obtain ⟨val, hv, h⟩ := bind_ok h
   guard_at h
   cases h
-  refine moves_of_money (setValidatorUnstaking_money ..) ?_
-  exact stakeSum_valPut_same (getValidator_ok hv) rfl
+  exact moves_of_money (setValidatorUnstaking_money ..) (stakeSum_setValidatorUnstaking _ (getValidator_ok hv) rfl)
+
+theorem handlePause_moves {L L' : Ledger} {a : Addr} (h : handlePause L a = .ok L') : Moves L L' := by
+  unfold handlePause at h
+  obtain ⟨val, hv, h⟩ := bind_ok h
+  guard_at h
+  guard_at h
+  guard_at h
+  cases h
+  exact moves_of_money (setValidatorPaused_money ..) (stakeSum_setValidatorPaused _ (getValidator_ok hv) rfl)
+
+theorem handleUnpause_moves {L L' : Ledger} {a : Addr} (h : handleUnpause L a = .ok L') : Moves L L' := by
+  unfold handleUnpause at h
+  obtain ⟨val, hv, h⟩ := bind_ok h
+  guard_at h
+  guard_at h
+  guard_at h
+  cases h
+  exact moves_of_money (setValidatorUnpaused_money ..) (stakeSum_setValidatorUnpaused (getValidator_ok hv) rfl)
+
+/-! ### stake changes -/
+
+/-- same recorded total, accounts, pools and validator records -/
+structure SameBal (L L' : Ledger) : Prop where
+  total : L'.supply.total = L.supply.total
+  accounts : L'.accounts = L.accounts
+  pools : L'.pools = L.pools
+  validators : L'.validators = L.validators
+
+theorem SameBal.refl (L : Ledger) : SameBal L L := ⟨rfl, rfl, rfl, rfl⟩
+theorem SameBal.trans {A B C : Ledger} (h1 : SameBal A B) (h2 : SameBal B C) : SameBal A C :=
+  ⟨h2.total.trans h1.total, h2.accounts.trans h1.accounts, h2.pools.trans h1.pools, h2.validators.trans h1.validators⟩
+theorem SameCore.sameBal {L L' : Ledger} (h : SameCore L L') : SameBal L L' := ⟨h.total, h.accounts, h.pools, h.validators⟩
+theorem SameBal.bal_eq {L L' : Ledger} (h : SameBal L L') : Ledger.bal L' = Ledger.bal L := by
+  simp [Ledger.bal, accSum, poolSum, stakeSum, h.accounts, h.pools, h.validators]
+theorem SameBal.moves {L L' : Ledger} (h : SameBal L L') : Moves L L' := ⟨by rw [h.total], by rw [h.bal_eq]⟩
+theorem SameBal.valGet {L L' : Ledger} (h : SameBal L L') (a : Addr) : valGet? L' a = valGet? L a := by
+  simp [valGet?, h.validators]
+
+theorem sameBal_addToStaked {L L' : Ledger} {x : Nat} (h : addToStaked L x = .ok L') : SameBal L L' := by
+  rw [addToStaked_ok h]; exact ⟨rfl, rfl, rfl, rfl⟩
+theorem sameBal_subFromStaked {L L' : Ledger} {x : Nat} (h : subFromStaked L x = .ok L') : SameBal L L' := by
+  rw [(subFromStaked_ok h).2]; exact ⟨rfl, rfl, rfl, rfl⟩
+theorem sameBal_addToDelegated {L L' : Ledger} {x : Nat} (h : addToDelegated L x = .ok L') : SameBal L L' := by
+  rw [addToDelegated_ok h]; exact ⟨rfl, rfl, rfl, rfl⟩
+theorem sameBal_subFromDelegated {L L' : Ledger} {x : Nat} (h : subFromDelegated L x = .ok L') : SameBal L L' := by
+  rw [(subFromDelegated_ok h).2]; exact ⟨rfl, rfl, rfl, rfl⟩
+
+/-- writing a validator record changes the real sum by the difference of the stakes -/
+theorem bal_valPut (L : Ledger) (a : Addr) (v : Validator) :
+    (valPut L a v).supply.total = L.supply.total ∧ bal (valPut L a v) + ow (·.stake) (valGet? L a) = bal L + v.stake := by
+  have := stakeSum_valPut L a v
+  refine ⟨rfl, ?_⟩
+  have e1 : accSum (valPut L a v) = accSum L := rfl
+  have e2 : poolSum (valPut L a v) = poolSum L := rfl
+  unfold bal; rw [e1, e2]; omega
+
+theorem bal_valDel (L : Ledger) (a : Addr) :
+    (valDel L a).supply.total = L.supply.total ∧ bal (valDel L a) + ow (·.stake) (valGet? L a) = bal L := by
+  have := stakeSum_valDel L a
+  refine ⟨rfl, ?_⟩
+  have e1 : accSum (valDel L a) = accSum L := rfl
+  have e2 : poolSum (valDel L a) = poolSum L := rfl
+  unfold bal; rw [e1, e2]; omega
+
+/-- `UpdateValidatorStake` adds `amt` to the stake of an existing validator (no wrap: stake + amt < 2^64) -/
+theorem updateValidatorStake_bal {L L' : Ledger} {a : Addr} {old val : Validator} {cs : List Nat} {amt : Nat}
+    (hg : valGet? L a = some old) (hs : val.stake = old.stake) (hw : val.stake + amt < U64)
+    (h : updateValidatorStake L a val cs amt = .ok L') :
+    L'.supply.total = L.supply.total ∧ bal L' = bal L + amt := by
+  unfold updateValidatorStake at h
+  obtain ⟨L1, h1, h⟩ := bind_ok h
+  have s1 := sameBal_addToStaked h1
+  have key : ∀ L2, SameBal L1 L2 → L' = valPut L2 a { val with committees := cs, stake := (val.stake + amt) % U64 } →
+      L'.supply.total = L.supply.total ∧ bal L' = bal L + amt := by
+    intro L2 s2 e
+    subst e
+    rw [Nat.mod_eq_of_lt hw]
+    have s := s1.trans s2
+    have hb := bal_valPut L2 a { val with committees := cs, stake := val.stake + amt }
+    rw [s.valGet, hg] at hb
+    simp only [ow_some] at hb
+    have := s.bal_eq; have := s.total
+    exact ⟨by omega, by omega⟩
+  dsimp only at h
+  split at h
+  · obtain ⟨L1', h3, h⟩ := bind_ok h
+    obtain ⟨L2, h4, h⟩ := bind_ok h
+    cases h
+    exact key L2 ((sameBal_addToDelegated h3).trans (sameCore_updateDelegations h4).sameBal) rfl
+  · obtain ⟨L2, h4, h⟩ := bind_ok h
+    cases h
+    exact key L2 (sameCore_updateCommittees h4).sameBal rfl
+
+/-- `DeleteValidator` removes the stake of an existing validator from the real sum -/
+theorem deleteValidator_bal {L L' : Ledger} {a : Addr} {val : Validator} (hg : valGet? L a = some val)
+    (h : deleteValidator L a val = .ok L') :
+    L'.supply.total = L.supply.total ∧ bal L' + val.stake = bal L := by
+  unfold deleteValidator at h
+  obtain ⟨L1, h1, h⟩ := bind_ok h
+  have s1 := sameBal_subFromStaked h1
+  have key : ∀ L2, SameBal L1 L2 → L' = valDel L2 a → L'.supply.total = L.supply.total ∧ bal L' + val.stake = bal L := by
+    intro L2 s2 e
+    subst e
+    have s := s1.trans s2
+    have hb := bal_valDel L2 a
+    rw [s.valGet, hg] at hb
+    simp only [ow_some] at hb
+    have := s.bal_eq; have := s.total
+    exact ⟨by omega, by omega⟩
+  dsimp only at h
+  split at h
+  · obtain ⟨L1', h3, h⟩ := bind_ok h
+    obtain ⟨L2, h4, h⟩ := bind_ok h
+    cases h
+    exact key L2 ((sameBal_subFromDelegated h3).trans (sameCore_deleteDelegations h4).sameBal) rfl
+  · obtain ⟨L2, h4, h⟩ := bind_ok h
+    cases h
+    exact key L2 (sameCore_deleteCommittees h4).sameBal rfl
+
+/-! ### inversion of the stake / edit-stake handlers -/
+
+/-- what a successful `HandleMessageStake` did -/
+theorem handleStake_inv {L L' : Ledger} {s a o : Addr} {x : Nat} {cs : List Nat} {d c : Bool}
+    (h : handleStake L s a x cs d c o = .ok L') :
+    valGet? L a = none ∧
+    (if d then L.params.minStakeDelegates ≤ x else L.params.minStakeValidators ≤ x) ∧
+    ∃ L1 L2 L3, accountSub L s x = .ok L1 ∧ addToStaked L1 x = .ok L2 ∧
+      (if d then ∃ L2', addToDelegated L2 x = .ok L2' ∧ setDelegations L2' a x cs = .ok L3 else setCommittees L2 a x cs = .ok L3) ∧
+      L' = valPut L3 a { stake := x, committees := cs, delegate := d, compound := c, output := o } := by
+  unfold handleStake at h
+  guard_at h
+  next hex =>
+  have hnone : valGet? L a = none := by
+    cases hv : valGet? L a with
+    | none => rfl
+    | some v => simp [hv] at hex
+  cases d with
+  | true =>
+    simp only [if_true] at h ⊢
+    guard_at h
+    next hmin =>
+    obtain ⟨L1, h1, h⟩ := bind_ok h
+    obtain ⟨L2, h2, h⟩ := bind_ok h
+    obtain ⟨L2', h3, h⟩ := bind_ok h
+    obtain ⟨L3, h4, h⟩ := bind_ok h
+    cases h
+    exact ⟨hnone, by omega, L1, L2, L3, h1, h2, ⟨L2', h3, h4⟩, rfl⟩
+  | false =>
+    simp only [Bool.false_eq_true, if_false] at h ⊢
+    guard_at h
+    next hmin =>
+    obtain ⟨L1, h1, h⟩ := bind_ok h
+    obtain ⟨L2, h2, h⟩ := bind_ok h
+    obtain ⟨L3, h4, h⟩ := bind_ok h
+    cases h
+    exact ⟨hnone, by omega, L1, L2, L3, h1, h2, h4, rfl⟩
+
+theorem handleStake_moves {L L' : Ledger} {s a o : Addr} {x : Nat} {cs : List Nat} {d c : Bool}
+    (h : handleStake L s a x cs d c o = .ok L') : Moves L L' := by
+  obtain ⟨hnone, _, L1, L2, L3, h1, h2, h3, rfl⟩ := handleStake_inv h
+  obtain ⟨acc, rfl, e1⟩ := accountSub_ok h1
+  have s2 := sameBal_addToStaked h2
+  have s3 : SameBal L2 L3 := by
+    cases d with
+    | true => simp only [if_true] at h3; obtain ⟨L2', h4, h5⟩ := h3
+              exact (sameBal_addToDelegated h4).trans (sameCore_setDelegations h5).sameBal
+    | false => simp only [Bool.false_eq_true, if_false] at h3; exact (sameCore_setCommittees h3).sameBal
+  have s := s2.trans s3
+  have hb := bal_valPut L3 a { stake := x, committees := cs, delegate := d, compound := c, output := o }
+  rw [s.valGet] at hb
+  have hn : valGet? { L with accounts := acc } a = none := hnone
+  rw [hn] at hb
+  have := s.bal_eq; have := s.total
+  ledger_norm; simp only [ow_none] at hb; omega
+
+/-- what a successful `HandleMessageEditStake` did -/
+theorem handleEditStake_inv {L L' : Ledger} {s a o : Addr} {x : Nat} {cs : List Nat} {c : Bool}
+    (h : handleEditStake L s a x cs c o = .ok L') :
+    ∃ val L1, valGet? L a = some val ∧ val.unstakingHeight = 0 ∧
+      accountSub L s (if x ≤ val.stake then 0 else x - val.stake) = .ok L1 ∧
+      updateValidatorStake L1 a { val with output := o, compound := c } cs (if x ≤ val.stake then 0 else x - val.stake) = .ok L' := by
+  unfold handleEditStake at h
+  obtain ⟨val, hv, h⟩ := bind_ok h
+  guard_at h
+  next hu =>
+  guard_at h
+  obtain ⟨L1, h1, h⟩ := bind_ok h
+  exact ⟨val, L1, getValidator_ok hv, by simpa using hu, h1, h⟩
+
+theorem handleEditStake_moves {L L' : Ledger} {s a o : Addr} {x : Nat} {cs : List Nat} {c : Bool} (hi : InvSupply L)
+    (h : handleEditStake L s a x cs c o = .ok L') : Moves L L' := by
+  obtain ⟨val, L1, hv, _, h1, h2⟩ := handleEditStake_inv h
+  obtain ⟨acc, rfl, e1⟩ := accountSub_ok h1
+  have hst := stake_le L a val hv
+  have hv1 : valGet? { L with accounts := acc } a = some val := hv
+  obtain ⟨t, b⟩ := updateValidatorStake_bal (val := { val with output := o, compound := c }) hv1 rfl (by
+    ledger_norm; show val.stake + _ < U64; omega) h2
+  ledger_norm; omega
+
+/-! ### slashing -/
+
+theorem safeMulDiv_le (a b : Nat) (hb : b ≤ 100) : safeMulDiv a b 100 ≤ a := by
+  unfold safeMulDiv
+  simp only [show (100 : Nat) ≠ 0 by decide, if_false]
+  refine Nat.le_trans (Nat.mod_le _ _) ?_
+  apply Nat.div_le_of_le_mul
+  calc a * b ≤ a * 100 := Nat.mul_le_mul_left a hb
+    _ = 100 * a := Nat.mul_comm _ _
+
+theorem stakeAfterSlash_le (stake p : Nat) : stakeAfterSlash stake p ≤ stake := by
+  unfold stakeAfterSlash
+  split
+  · omega
+  · split
+    · omega
+    · exact safeMulDiv_le _ _ (by omega)
+
+theorem slashScope_sameBal {L L0 : Ledger} {a : Addr} {val : Validator} {ch p p' : Nat} {cs' : List Nat}
+    (h : slashScope L a val ch p = some (p', cs', L0)) :
+    SameBal L L0 ∧ L0.supply = L.supply ∧ L0.unstaking = L.unstaking ∧ L0.paused = L.paused ∧ L0.params = L.params ∧ L0.height = L.height := by
+  unfold slashScope at h
+  split at h
+  · split at h
+    · cases h
+    · dsimp only at h
+      split at h
+      · cases h
+      · simp only [Option.some.injEq, Prod.mk.injEq] at h
+        obtain ⟨_, _, rfl⟩ := h
+        exact ⟨⟨rfl, rfl, rfl, rfl⟩, rfl, rfl, rfl, rfl, rfl⟩
+  · simp only [Option.some.injEq, Prod.mk.injEq] at h
+    obtain ⟨_, _, rfl⟩ := h
+    exact ⟨SameBal.refl L, rfl, rfl, rfl, rfl, rfl⟩
+
+theorem slashCleanMarkers_sameBal (mc : Bool) (L : Ledger) (a : Addr) (val : Validator) :
+    SameBal L (slashCleanMarkers mc L a val) := by
+  unfold slashCleanMarkers
+  dsimp only
+  split <;> split <;> exact ⟨rfl, rfl, rfl, rfl⟩
+
+theorem slashMembership_sameBal {L L' : Ledger} {a : Addr} {val : Validator} {after x : Nat} {cs : List Nat}
+    (h : slashMembership L a val after cs x = .ok L') : SameBal L L' := by
+  unfold slashMembership at h
+  split at h
+  · obtain ⟨L1, h1, h2⟩ := bind_ok h
+    exact (sameBal_subFromDelegated h1).trans (sameCore_updateDelegations h2).sameBal
+  · exact (sameCore_updateCommittees h).sameBal
+
+theorem setUnstakingIfBelowMinimum_eq (L : Ledger) (a : Addr) (val : Validator) :
+    setUnstakingIfBelowMinimum L a val = (false, L) ∨
+    ∃ f, setUnstakingIfBelowMinimum L a val = (true, setValidatorUnstaking L a val f) := by
+  unfold setUnstakingIfBelowMinimum
+  split
+  · exact Or.inl rfl
+  · split
+    · split
+      · exact Or.inr ⟨_, rfl⟩
+      · exact Or.inl rfl
+    · split
+      · exact Or.inr ⟨_, rfl⟩
+      · exact Or.inl rfl
+
+theorem bal_setValidatorUnstaking (L : Ledger) (a : Addr) (val : Validator) (f : Nat) :
+    (setValidatorUnstaking L a val f).supply.total = L.supply.total ∧
+    bal (setValidatorUnstaking L a val f) + ow (·.stake) (valGet? L a) = bal L + val.stake := by
+  have hm := setValidatorUnstaking_money L a val f
+  have hb := bal_valPut L a { val with maxPausedHeight := 0, unstakingHeight := f }
+  refine ⟨by rw [hm.supply], ?_⟩
+  have e : bal (setValidatorUnstaking L a val f) = bal (valPut L a { val with maxPausedHeight := 0, unstakingHeight := f }) := by
+    unfold bal accSum poolSum stakeSum
+    rw [hm.accounts, hm.pools, setValidatorUnstaking_validators]; rfl
+  rw [e]; exact hb.2
+
+/-- the end of the non-zero slash branch writes a record with the reduced stake -/
+theorem slashFinish_bal (L : Ledger) (a : Addr) (val' : Validator) :
+    (slashFinish L a val').supply.total = L.supply.total ∧
+    bal (slashFinish L a val') + ow (·.stake) (valGet? L a) = bal L + val'.stake := by
+  unfold slashFinish
+  dsimp only
+  rcases setUnstakingIfBelowMinimum_eq L a val' with e | ⟨f, e⟩
+  · rw [e]; simp only [Bool.false_eq_true, if_false]; exact bal_valPut L a val'
+  · rw [e]; simp only [if_true]; exact bal_setValidatorUnstaking L a val' f
+
+/-- `SlashValidator` burns exactly the slashed amount -/
+theorem slashValidator_burns {mc : Bool} {L L' : Ledger} {a : Addr} {val : Validator} {ch p : Nat}
+    (hg : valGet? L a = some val) (h : slashValidatorWith mc L a val ch p = .ok L') :
+    ∃ b, Step 0 b L L' := by
+  unfold slashValidatorWith at h
+  split at h
+  · cases h; exact ⟨0, Moves.refl L⟩
+  · next p' cs' L0 hsc =>
+    obtain ⟨s0, -⟩ := slashScope_sameBal hsc
+    have hle := stakeAfterSlash_le val.stake p'
+    dsimp only at h
+    split at h
+    · cases h
+    · next L1 h1 =>
+      obtain ⟨hx, rfl⟩ := subFromTotal_ok h1
+      refine ⟨val.stake - stakeAfterSlash val.stake p', ?_⟩
+      have hg0 : valGet? L0 a = some val := by rw [s0.valGet]; exact hg
+      split at h
+      · next hz =>
+        have sc := slashCleanMarkers_sameBal mc { L0 with supply := { L0.supply with total := L0.supply.total - (val.stake - stakeAfterSlash val.stake p') } } a val
+        obtain ⟨t, b⟩ := deleteValidator_bal (by rw [sc.valGet]; exact hg0) h
+        have := sc.bal_eq; have := sc.total; have := s0.bal_eq; have := s0.total
+        ledger_norm; omega
+      · split at h
+        · cases h
+        · next L2 h2 =>
+          split at h
+          · cases h
+          · next L3 h3 =>
+            cases h
+            have s2 := sameBal_subFromStaked h2
+            have s3 := slashMembership_sameBal h3
+            have s := s2.trans s3
+            obtain ⟨t, b⟩ := slashFinish_bal L3 a { val with committees := cs', stake := stakeAfterSlash val.stake p' }
+            rw [s.valGet] at b
+            have hg1 : valGet? { L0 with supply := { L0.supply with total := L0.supply.total - (val.stake - stakeAfterSlash val.stake p') } } a = some val := hg0
+            rw [hg1] at b
+            simp only [ow_some] at b
+            have := s.bal_eq; have := s.total; have := s0.bal_eq; have := s0.total
+            ledger_norm; omega
+
+theorem slashValidators_burns {mc : Bool} {ch p : Nat} : ∀ {as : List Addr} {L L' : Ledger},
+    slashValidatorsWith mc L ch p as = .ok L' → ∃ b, Step 0 b L L'
+  | [], L, L', h => by cases h; exact ⟨0, Moves.refl L⟩
+  | a :: as, L, L', h => by
+    unfold slashValidatorsWith at h
+    split at h
+    · exact slashValidators_burns h
+    · next val hv =>
+      obtain ⟨L1, h1, h2⟩ := bind_ok h
+      obtain ⟨b1, s1⟩ := slashValidator_burns hv h1
+      obtain ⟨b2, s2⟩ := slashValidators_burns h2
+      exact ⟨b1 + b2, by simpa using s1.trans s2⟩
 
 end Canopy.Ledger
